@@ -147,7 +147,9 @@ func (c *Ctx) RunCases(cases []*Case, after func(cr *CaseResult)) {
 			}
 		}
 		if after != nil {
+			c.inCase, c.caseCounted = true, false
 			after(cr)
+			c.inCase = false
 		}
 	}
 }
